@@ -27,6 +27,10 @@ func main() {
 		cmdCond(os.Args[2:])
 	case "ingest":
 		cmdIngest(os.Args[2:])
+	case "life":
+		cmdLife(os.Args[2:])
+	case "pair":
+		cmdPair(os.Args[2:])
 	default:
 		fmt.Fprintln(os.Stderr, "unknown subcommand", os.Args[1])
 		os.Exit(2)
@@ -218,6 +222,96 @@ func cmdIngest(args []string) {
 			defer wg.Done()
 			defer func() { <-sem }()
 			res[i], inc[i] = drv.RunIngest(scs[i])
+		}(i)
+	}
+	wg.Wait()
+	of, err := os.Create(*out)
+	if err != nil {
+		fatal(err)
+	}
+	nInc := 0
+	for i := range scs {
+		if inc[i] != "" {
+			nInc++
+			fmt.Printf("INCONCLUSIVE tr=%d %s\n", scs[i].Tr, inc[i])
+			continue
+		}
+		if err := drv.WriteTrace(of, res[i]); err != nil {
+			fatal(err)
+		}
+	}
+	of.Close()
+	fmt.Printf("RAN scenarios=%d inconclusive=%d\n", len(scs), nInc)
+}
+
+func cmdLife(args []string) {
+	fs := flag.NewFlagSet("life", flag.ExitOnError)
+	scen := fs.String("scen", "", "scenario ndjson file")
+	out := fs.String("out", "", "trace ndjson output")
+	fs.Int("par", 1, "unused: lifecycle scenarios run one at a time (goroutine accounting)")
+	fs.Parse(args)
+	f, err := os.Open(*scen)
+	if err != nil {
+		fatal(err)
+	}
+	of, err := os.Create(*out)
+	if err != nil {
+		fatal(err)
+	}
+	rd := bufio.NewScanner(f)
+	n, nInc := 0, 0
+	for rd.Scan() {
+		var sc drv.LifeScenario
+		if err := json.Unmarshal(rd.Bytes(), &sc); err != nil {
+			fatal(err)
+		}
+		evs, inc := drv.RunLife(sc)
+		n++
+		if inc != "" {
+			nInc++
+			fmt.Printf("INCONCLUSIVE tr=%d %s\n", sc.Tr, inc)
+			continue
+		}
+		if err := drv.WriteTrace(of, evs); err != nil {
+			fatal(err)
+		}
+	}
+	of.Close()
+	fmt.Printf("RAN scenarios=%d inconclusive=%d\n", n, nInc)
+}
+
+func cmdPair(args []string) {
+	fs := flag.NewFlagSet("pair", flag.ExitOnError)
+	scen := fs.String("scen", "", "scenario ndjson file")
+	out := fs.String("out", "", "trace ndjson output")
+	par := fs.Int("par", 8, "parallel pairs")
+	fs.Parse(args)
+	f, err := os.Open(*scen)
+	if err != nil {
+		fatal(err)
+	}
+	var scs []drv.PairScenario
+	rd := bufio.NewScanner(f)
+	rd.Buffer(make([]byte, 1<<20), 1<<26)
+	for rd.Scan() {
+		var sc drv.PairScenario
+		if err := json.Unmarshal(rd.Bytes(), &sc); err != nil {
+			fatal(err)
+		}
+		scs = append(scs, sc)
+	}
+	f.Close()
+	res := make([][]drv.Ev, len(scs))
+	inc := make([]string, len(scs))
+	var wg sync.WaitGroup
+	sem := make(chan struct{}, *par)
+	for i := range scs {
+		wg.Add(1)
+		sem <- struct{}{}
+		go func(i int) {
+			defer wg.Done()
+			defer func() { <-sem }()
+			res[i], inc[i] = drv.RunPair(scs[i])
 		}(i)
 	}
 	wg.Wait()
